@@ -14,9 +14,6 @@ import re
 import subprocess
 from . import common
 
-D1_TAG = "[pending finaliser discarded by ExtractAllMarkedFinalize]"
-
-
 def nontrivial_pool(ops):
     seen = set()
     closed = False
@@ -105,7 +102,7 @@ def compare_leg(ctx, best, leg, lines):
         parts = e.split(" ; ")
         fields = dict(p.split("=", 1) for p in parts if "=" in p and not p.startswith("L"))
         verdict = fields.get("A", "ok")
-        model = " ; ".join(p for p in parts if not (p.startswith("A=") or p.startswith("D1=")))
+        model = " ; ".join(p for p in parts if not p.startswith("A="))
         nt = nontrivial_pool(ops) if leg == "pool" else nontrivial_rt(ops)
         ctx.case(leg + " " + " ".join(ops), nt)
         ctx.count(leg + ":len%02d" % min(len(ops), 20))
@@ -130,15 +127,11 @@ def compare_leg(ctx, best, leg, lines):
             ctx.count(leg + ":mark-after-release-panics")
         ctx.count(leg + ":levelA:" + (verdict if verdict in ("ok", "fatal", "undisciplined") else "bad"))
         if verdict not in ("ok", "fatal", "undisciplined"):
-            lost = set(fields.get("D1", "").split(",")) - {""}
             if leg == "pool":
                 best.add("A pool " + verdict, line, "history `%s`: the pool's outputs violate Spec.Gc: %s" % (hist, verdict), replay)
             else:
                 for name, k in reasons_of(verdict):
                     cls = "A rt " + name
-                    if name in ("not-finalized-by-close", "not-finalized-by-context-end") and k in lost:
-                        cls += " " + D1_TAG
-                        ctx.count("rt:lost-finaliser")
                     best.add(cls, line,
                              "history `%s`: %s for value %s (expected: __gc runs exactly once by the time the owning context "
                              "or the runtime is closed)" % (hist, name, k), replay)
@@ -166,11 +159,6 @@ def lua_leg(ctx, best, h):
         if e != "ok":
             for rname, k in reasons_of(e):
                 cls = "A lua " + rname
-                # Go's collector is off except where the scenario runs it; a finaliser queued by the GC the
-                # harness forces right before Close, with no continuation step in between, is the known loss
-                if rname == "not-finalized-by-close" and gcb == "gcb=1":
-                    cls += " " + D1_TAG
-                    ctx.count("lua:lost-finaliser")
                 best.add(cls, line, "scenario %s seed %s: %s for value %s; log: %s" % (name, seed, rname, k, " ".join(toks)), replay)
     for l in lines[:3]:
         ctx.sample(l)
